@@ -37,6 +37,11 @@ var c09Loops = []struct{ name, script string }{
 	{"loop-with-host-call", `while (true) { t(1); v(2); }`},
 	{"direct-recursion-with-loop", `function r(n) { if (n > 50) { while (true) { n = n; } } return r(n + 1); } return r(0);`},
 	{"mutual-recursion-with-loop", `function ping(n) { if (n > 30) { for (true) { n = n; } } return pong(n + 1); } function pong(n) { return ping(n + 1); } return ping(0);`},
+	{"tree-recursion-fib", `function fib(n) { if (n < 2) { return n; } return fib(n - 1) + fib(n - 2); } return fib(60);`},
+	{"tree-recursion-three-way", `function tri(n) { if (n <= 0) { return 1; } return tri(n - 1) + tri(n - 2) + tri(n - 3); } return tri(90);`},
+	{"mutual-tree-recursion", `function ev(n) { if (n <= 0) { return 1; } return od(n - 1) + od(n - 2); } function od(n) { if (n <= 0) { return 0; } return ev(n - 1) + ev(n - 1); } return ev(80);`},
+	{"short-calls-from-short-calls", `function leaf(a) { return a + 1; } function mid(n) { if (n <= 0) { return leaf(n); } return mid(n - 1) + mid(n - 1) + leaf(n); } return mid(70);`},
+	{"recursion-in-foreach", `function walk(n) { if (n <= 0) { return 0; } foreach i in 1..3 { z = walk(n - 1); } return n; } return walk(40);`},
 	{"loop-in-else-branch", `if (false) { return 1; } else { while (true) { e = 1; } }`},
 	{"loop-after-work", `s = ""; foreach c in "abcdef" { s = s + c; } while (len(s) > 0) { s = s + ""; }`},
 	{"loop-with-array-work", `a = 1..50; while (true) { foreach e in a { x = e; } }`},
